@@ -137,6 +137,16 @@ Proof.
   rewrite Z.land_spec, !testbit_hi_lo by assumption. destruct (n <? s); rewrite Z.land_spec; reflexivity.
 Qed.
 
+(* two words that agree with DIFFERENT fixed bits on a common mask position are different *)
+Lemma fixed_conflict_disjoint : forall f1 m1 f2 m2 w1 w2, Z.land w1 m1 = f1 -> Z.land w2 m2 = f2 ->
+  Z.land (Z.lxor f1 f2) (Z.land m1 m2) <> 0 -> w1 <> w2.
+Proof.
+  intros f1 m1 f2 m2 w1 w2 H1 H2 Hc E. subst w2 f1 f2. apply Hc.
+  apply Z.bits_inj'. intros n Hn.
+  rewrite Z.land_spec, Z.lxor_spec, !Z.land_spec, Z.bits_0.
+  destruct (Z.testbit w1 n), (Z.testbit m1 n), (Z.testbit m2 n); reflexivity.
+Qed.
+
 Lemma tmask_range : forall t, forallb item_wf t = true -> 0 <= tmask t < 2 ^ twidth t.
 Proof.
   induction t; simpl; intros H. { lia. }
